@@ -270,7 +270,11 @@ def mutate_and_check(ctx, col, cname, base, basedig):
                     m = parse_both(ctx, w, key, case)
                     if m is not None:
                         strictness(ctx, m, cname, key, case, w)
-                        fixed_point(ctx, m, key, case)
+                        m1 = fixed_point(ctx, m, key, case)
+                        # black-/whitelists: an accepted list value (the empty list included: "nobody") must survive re-marshalling
+                        if k in W.STRICT_LISTS and k in KNOWN_OPTS[cname] and isinstance(junk, list) and pos < len(m1) and isinstance(m1[pos], dict):
+                            if k not in m1[pos] or not W.deep_eq(W.norm(m1[pos][k]), W.norm(junk)):
+                                raise Violation("C08|%s|%s|accepted-option-lost-on-remarshal" % (cname, slot), "input %s=%r, re-marshalled options %r" % (k, junk, brief(m1[pos])), case)
                         if k in OPT_TYPE and k in KNOWN_OPTS[cname]:
                             attr = ATTR_OF_KEY.get(k, k)
                             attrs = W.public_attrs(m)
